@@ -330,6 +330,18 @@ func enumDG2(thorough bool, emit func(File)) {
 			}
 		}
 	}
+	// (a') 4..9 templates (the counter object is one octet and LDS allows up to 9 instances): every count, three
+	// rotations through the alphabet, image ids disjoint per position
+	for n := 4; n <= 9; n++ {
+		for rot := 0; rot < 3; rot++ {
+			var ts []Template
+			for i := 0; i < n; i++ {
+				al := templateAlphabet(40 * (i + 3))
+				ts = append(ts, al[(rot*5+i*4)%len(al)])
+			}
+			emit(BuildDG2(DG2Spec{Templates: ts}))
+		}
+	}
 	// (b) header template: all 2^6 subsets of the optional elements (format owner/type always present), both encodings
 	for _, is39 := range []bool{false, true} {
 		for m := 0; m < 64; m++ {
